@@ -190,6 +190,8 @@ impl Storage {
             // The genesis block key marks the storage as initialized, so it has to be written
             // at last: if the process is killed before that, all of the above is written again
             // when the storage is opened the next time.
+            #[cfg(feature = "verif")]
+            crate::verif_hooks::point("write", "init_genesis_block_key");
             self.db
                 .put(genesis_block_key, genesis_hash_and_txs_hash.as_slice())
                 .expect("db put genesis block should be ok");
